@@ -18,4 +18,8 @@ theorem ipcp_dispatch : GoodDispatch FsmIpcp.tables = true := by decide +kernel
 /-- timeout() re-arms the timer only together with a decrement of the restart counter, never when it is ≤ 0 -/
 theorem ipcp_to : GoodTO FsmIpcp.tables = true := by decide +kernel
 
+/-- timeout() has no statement before its switch, and whenever it ends in Closing, Stopping, Req-Sent, Ack-Rcvd or
+    Ack-Sent it has re-armed the restart timer -/
+theorem ipcp_wait : GoodWait FsmIpcp.tables = true := by decide +kernel
+
 end Bng.Proof.NcpTables
